@@ -234,7 +234,8 @@ fn check_std_direct(
                         return Err(("".into(), format!("context event at {} has line number {}", off, ln)));
                     }
                 }
-                let cont = content(bytes, o.crlf);
+                // in multi-line mode the printer re-searches the context bytes with their terminator visible
+                let cont = if ml_eff { &bytes[..] } else { content(bytes, o.crlf) };
                 let first = if o.invert && granular(o) { matcher.find(cont).ok().flatten() } else { None };
                 if o.vimgrep && o.invert && first.is_some() {
                     let mut ms = vec![];
@@ -918,10 +919,10 @@ fn run_cli(case: &str, o: &Opts, args: &Args, json: bool, rep: &mut Report) {
     let mut names: Vec<String> = (0..o.files.len()).map(path_of).collect();
     names.sort();
     cmd.args(&names);
-    let outp = match cmd.output() {
-        Ok(o) => o,
-        Err(e) => {
-            rep.notes.push(format!("cannot run rg: {}", e));
+    let outp = match run_with_timeout(&mut cmd, &args.scratch.join("c09-out"), 20) {
+        Some(o) => o,
+        None => {
+            rep.notes.push("cannot run rg".to_string());
             return;
         }
     };
@@ -933,7 +934,7 @@ fn run_cli(case: &str, o: &Opts, args: &Args, json: bool, rep: &mut Report) {
     // the binary's single-threaded standard printer owns the context separator as search separator
     o2.files = order.iter().map(|&i| o.files[i].clone()).collect();
     rep.branch(if json { "cli:json" } else { "cli:standard" });
-    if stderr.contains("panicked") {
+    if stderr.contains("panicked") || outp.timed_out {
         rep.branch("cli:panic");
         viol(
             rep,
